@@ -11,6 +11,7 @@ EXPLANATION = ("provenance rules: the duration stored by the single lease write 
                "reading; the callers bind lower/upper to the policy's min/max with the documented defaults (300 s / 86400 s); "
                "every reply built by a handler carries option 51 taken from the lease the pool returned")
 ASSUMPTIONS = ["not decided: renewal rhythms over time; numeric behaviour of the growth heuristics (only that the result is clamped)"]
+EXPLANATION += "; also: C18's recorded-row, explicit-commit and explicit-transaction-pairing rules are evaluated here too"
 EXTRA_CONFIGS = ["dhcp"]
 
 OPTION_LEASETIME = 51
